@@ -63,26 +63,37 @@ def jwksOf (j : Json) : Option Bool :=
   | .ok (.bool b) => some b
   | _ => none
 
-def regHandle (j : Json) : Except String Json := do
-  let smj ← j.getObjVal? "sm"
-  let sm : ServerMeta := ⟨strList smj "scopes_supported", strList smj "response_types_supported", strList smj "grant_types_supported",
+def smOf (smj : Json) : ServerMeta :=
+  ⟨strList smj "scopes_supported", strList smj "response_types_supported", strList smj "grant_types_supported",
     strList smj "token_endpoint_auth_methods_supported"⟩
+
+def parseRegOp (o : Json) : Except String Op := do
+  let payload : Option (Option Doc) := match o.getObjVal? "payload" with
+    | .ok .null => some none
+    | .ok p => (toDoc p).map some
+    | _ => some none
+  match payload with
+  | none => throw "unsupported"
+  | some p =>
+    if !(p.map payloadSupported).getD true then throw "unsupported"
+    else match (← getStr o "op") with
+      | "register" => pure (Op.register (tokOf o) p (jwksOf o))
+      | "update" => pure (Op.update (tokOf o) p (jwksOf o))
+      | x => throw s!"op {x}"
+
+def regHandle (j : Json) : Except String Json := do
+  let sm0 := smOf (← j.getObjVal? "sm")
+  -- an operation may carry "sm": the server metadata changed before this request (same endpoint instance)
   let ops ← (← getArr j "ops").toList.mapM fun o => do
-    let payload : Option (Option Doc) := match o.getObjVal? "payload" with
-      | .ok .null => some none
-      | .ok p => (toDoc p).map some
-      | _ => some none
-    match payload with
-    | none => throw "unsupported"
-    | some p =>
-      if !(p.map payloadSupported).getD true then throw "unsupported"
-      else match (← getStr o "op") with
-        | "register" => pure (Op.register (tokOf o) p (jwksOf o))
-        | "update" => pure (Op.update (tokOf o) p (jwksOf o))
-        | x => throw s!"op {x}"
-  let (s, outs) := ops.foldl (fun (acc : Store × List Json) op =>
-    let (s', o) := step sm acc.1 op
-    (s', acc.2 ++ [Json.mkObj [("status", o.status), ("error", optStr o.error)]])) (⟨[], 0⟩, [])
+    let smNew : Option ServerMeta := match o.getObjVal? "sm" with
+      | .ok (.obj kvs) => some (smOf (.obj kvs))
+      | _ => none
+    let op ← parseRegOp o
+    pure (smNew, op)
+  let (_, s, outs) := ops.foldl (fun (acc : ServerMeta × Store × List Json) (smop : Option ServerMeta × Op) =>
+    let sm := smop.1.getD acc.1
+    let (s', o) := step sm acc.2.1 smop.2
+    (sm, s', acc.2.2 ++ [Json.mkObj [("status", o.status), ("error", optStr o.error)]])) (sm0, ⟨[], 0⟩, [])
   pure (Json.mkObj [("outs", Json.arr outs.toArray),
     ("store", Json.arr (s.clients.map fun c => Json.arr #[Json.str c.id, Json.str c.secret, docJson c.metadata]).toArray)])
 
